@@ -395,6 +395,17 @@ def lockStake (b : Bal) (src : Addr) (stake : Nat) (registryOk : Bool) : Option 
   else if !registryOk then none
   else some (subBal b src stake).1
 
+/-- `ten = StrToBigInt("10")` of executor/miner_node_executor.go -/
+def nodeFee : Nat := 10000000000000000000
+
+/-- Ledger effect of `minerNodeExecutor.Execute` (OperatorNode, type 7): balance test against 10 RPG,
+    `SubBalance(owner, ten)` — credited to nobody — then the registry / main-node-contract steps
+    (`registryOk`); any later failure makes the caller revert. -/
+def nodeTx (b : Bal) (src : Addr) (registryOk : Bool) : Option Bal :=
+  if get b src < nodeFee then none
+  else if !registryOk then none
+  else some (subBal b src nodeFee).1
+
 /-- `RefundManager.CheckAndMove`: every (address, value) of the escrow list is credited. -/
 def refundMove (b : Bal) : List (Addr × Nat) → Bal
   | [] => b
@@ -406,6 +417,7 @@ inductive Tx where
   | operator (src : Addr) (dataOk : Bool) (targets : List (Addr × Amount))
   | contract (t : ContractTx)
   | lock (src : Addr) (stake : Nat) (registryOk : Bool)  -- miner apply / add-stake transactions (stake in wei)
+  | node (src : Addr) (registryOk : Bool)                -- OperatorNode transaction (type 7)
 
 /-- Block-scoped executor context: `context["gasUsed"]` is never cleared between transactions. -/
 structure Ctx where
@@ -434,6 +446,13 @@ def execTx (fuel : Nat) (w : World) : Tx → World × Status
     | none => (w, .failed)
     | some b1 =>
       match lockStake b1 src n registryOk with
+      | none => ({ w with st := { w.st with bal := b1 } }, .failed)
+      | some b2 => ({ w with st := { w.st with bal := b2 } }, .success)
+  | .node src registryOk =>
+    match processFee w.st.bal src with
+    | none => (w, .failed)
+    | some b1 =>
+      match nodeTx b1 src registryOk with
       | none => ({ w with st := { w.st with bal := b1 } }, .failed)
       | some b2 => ({ w with st := { w.st with bal := b2 } }, .success)
   | .contract t =>
@@ -471,5 +490,34 @@ def execBlock (fuel : Nat) (w : World) (txs : List Tx) : World × List Status :=
   let r := execTxs fuel { w with ctx := { gasUsed := none } } txs
   let w' := r.1
   ({ w' with code := dropCode w'.code w'.st.dead, st := { w'.st with dead := [] } }, r.2)
+
+/-! ### End of block: reward escrow and the refund mover (`VMExecutor.after`) -/
+
+/-- The refund/reward escrow: (due height, beneficiary, amount). In the code: storage of the pseudo-accounts
+    `sha256("refund" ++ height)`, written by `RefundManager.Add`, emptied by `CheckAndMove`. -/
+abbrev Escrow := List (Nat × Addr × Nat)
+
+def escrowTotal : Escrow → Nat
+  | [] => 0
+  | (_, _, v) :: r => v + escrowTotal r
+
+/-- entries due at height `h`, as the list `CheckAndMove h` pays out -/
+def dueAt : Escrow → Nat → List (Addr × Nat)
+  | [], _ => []
+  | (k, a, v) :: r, h => if k = h then (a, v) :: dueAt r h else dueAt r h
+
+def notDueAt : Escrow → Nat → Escrow
+  | [], _ => []
+  | (k, a, v) :: r, h => if k = h then notDueAt r h else (k, a, v) :: notDueAt r h
+
+/-- `RefundManager.CheckAndMove(h)`: credit every entry due at `h`, remove it from the escrow. -/
+def checkAndMove (b : Bal) (e : Escrow) (h : Nat) : Bal × Escrow :=
+  (refundMove b (dueAt e h), notDueAt e h)
+
+/-- `VMExecutor.after` at height `h`: `RefundManager.Add` of what the block produced (`added`: the block reward
+    computed by `RewardCalculator.CalculateReward` — an input, its float arithmetic is C01's subject — and stake
+    refunds), then `CheckAndMove(h)`. -/
+def afterBlock (b : Bal) (e : Escrow) (h : Nat) (added : Escrow) : Bal × Escrow :=
+  checkAndMove b (e ++ added) h
 
 end Rangers.Ledger
